@@ -551,14 +551,18 @@ def enc_all_axioms():
 class SequenceEncode(CodecBase):
     """sequence<T>: a uint64 element count, then the elements in order, each through the tree codec of T"""
     target = "serialization.py::SequenceCodec.encode"
+    seq_param = "sequence"
     params = {"out": "stream", "sequence": "seq", "serialization": "ref:Serialization", "subtypes": "val"}
     modifies = {"$stream.content": only("out"), "$stream.pos": only("out")}
 
     def axioms(self, eng):
         return super().axioms(eng) + enc_all_axioms()
 
+    def _es(self, a):
+        return a[self.seq_param].t
+
     def pre(self, c, a):
-        return dict(append_pre(c, a.out.t), **{"count_fits_uint64": z3.Length(a.sequence.t) < 2 ** 64,
+        return dict(append_pre(c, a.out.t), **{"count_fits_uint64": z3.Length(self._es(a)) < 2 ** 64,
                                               "one_subtype": z3.And(Val.is_VPair(to_val(a.subtypes)), is_VNone(snd(to_val(a.subtypes))))})
 
     def _sub(self, a):
@@ -566,13 +570,13 @@ class SequenceEncode(CodecBase):
 
     def may_raise(self, c0, a):
         i = fresh("i", Int)
-        es, t = a.sequence.t, self._sub(a)
+        es, t = self._es(a), self._sub(a)
         bad = lambda code: z3.Exists([i], z3.And(0 <= i, i < z3.Length(es), code(enc_exc(es[i], t))))
         return {"UnknownCodecError": bad(lambda e: e == 1), "Exception": bad(lambda e: z3.And(e != 0, e != 1))}
 
     def post(self, c0, c1, a, res):
         s = a.out.t
-        es, t = a.sequence.t, self._sub(a)
+        es, t = self._es(a), self._sub(a)
         B = appended(c0, c1, s)
         i = fresh("i", Int)
         return {"prefix_kept": z3.SubSeq(content(c1, s), 0, z3.Length(content(c0, s))) == content(c0, s),
@@ -581,29 +585,49 @@ class SequenceEncode(CodecBase):
                 "every_element_encodable": z3.ForAll([i], z3.Implies(z3.And(0 <= i, i < z3.Length(es)), enc_exc(es[i], t) == 0))}
 
 
-def _seq_enc_inv(L):
-    c0, a, cur = L.c0, L.a, L.c
-    s = a.out.t
-    es, t = a.sequence.t, fst(to_val(a.subtypes))
-    old, new = content(c0, s), content(cur, s)
-    B = z3.SubSeq(new, z3.Length(old), z3.Length(new) - z3.Length(old))
-    i = fresh("i", Int)
-    r_ = fresh("r", Int)
-    return {"prefix_kept": z3.SubSeq(new, 0, z3.Length(old)) == old,
-            "count_written": int_wire(z3.SubSeq(B, 0, 8), 8, False, z3.Length(es)),
-            "elements_so_far": z3.And(z3.Length(B) >= 8, z3.SubSeq(B, 8, z3.Length(B) - 8) == enc_all(z3.Extract(es, 0, L.k), t)),
-            "at_end": pos(cur, s) == z3.Length(new),
-            "other_streams_untouched": z3.ForAll([r_], z3.Implies(r_ != s, z3.And(content(cur, r_) == content(c0, r_),
-                                                                                  pos(cur, r_) == pos(c0, r_)))),
-            "encodable_so_far": z3.ForAll([i], z3.Implies(z3.And(0 <= i, i < L.k), enc_exc(es[i], t) == 0))}
+class SetEncode(SequenceEncode):
+    """set<T>: a uint64 element count, then every element through the tree codec of T, in the order in which the collection
+    is iterated.  The collection is represented by its iteration sequence (ghost): `len(items)` is the length of that
+    sequence and `for item in items` walks it - for a Python set a duplicate-free enumeration of its members in an order
+    the language does not fix.  That a set's iteration enumerates each member exactly once is Python's, not proved here."""
+    target = "serialization.py::SetCodec.encode"
+    seq_param = "items"
+    params = {"out": "stream", "items": "seq", "serialization": "ref:Serialization", "subtypes": "val"}
+    assumptions = ("SetCodec.encode: the collection argument is represented by its iteration sequence; len(items) equals the "
+                   "number of elements iterated (true of set, frozenset, list, tuple, dict views); the order is arbitrary",)
 
 
-def _seq_enc_lemmas(L):
-    a = L.a
-    es, t = a.sequence.t, fst(to_val(a.subtypes))
-    k = L.k
-    return [z3.Implies(z3.And(0 <= k, k < z3.Length(es)),
-                       enc_all(z3.Extract(es, 0, k + 1), t) == z3.Concat(enc_all(z3.Extract(es, 0, k), t), enc_tree(es[k], t)))]
+def _mk_seq_enc_inv(seq_param):
+    def _seq_enc_inv(L):
+        c0, a, cur = L.c0, L.a, L.c
+        s = a.out.t
+        es, t = a[seq_param].t, fst(to_val(a.subtypes))
+        old, new = content(c0, s), content(cur, s)
+        B = z3.SubSeq(new, z3.Length(old), z3.Length(new) - z3.Length(old))
+        i = fresh("i", Int)
+        r_ = fresh("r", Int)
+        return {"prefix_kept": z3.SubSeq(new, 0, z3.Length(old)) == old,
+                "count_written": int_wire(z3.SubSeq(B, 0, 8), 8, False, z3.Length(es)),
+                "elements_so_far": z3.And(z3.Length(B) >= 8, z3.SubSeq(B, 8, z3.Length(B) - 8) == enc_all(z3.Extract(es, 0, L.k), t)),
+                "at_end": pos(cur, s) == z3.Length(new),
+                "other_streams_untouched": z3.ForAll([r_], z3.Implies(r_ != s, z3.And(content(cur, r_) == content(c0, r_),
+                                                                                      pos(cur, r_) == pos(c0, r_)))),
+                "encodable_so_far": z3.ForAll([i], z3.Implies(z3.And(0 <= i, i < L.k), enc_exc(es[i], t) == 0))}
+    return _seq_enc_inv
+
+
+def _mk_seq_enc_lemmas(seq_param):
+    def _seq_enc_lemmas(L):
+        a = L.a
+        es, t = a[seq_param].t, fst(to_val(a.subtypes))
+        k = L.k
+        return [z3.Implies(z3.And(0 <= k, k < z3.Length(es)),
+                           enc_all(z3.Extract(es, 0, k + 1), t) == z3.Concat(enc_all(z3.Extract(es, 0, k), t), enc_tree(es[k], t)))]
+    return _seq_enc_lemmas
+
+
+_seq_enc_inv = _mk_seq_enc_inv("sequence")
+_seq_enc_lemmas = _mk_seq_enc_lemmas("sequence")
 
 
 def Ctx_of(L):
@@ -618,6 +642,9 @@ def register(reg):      # noqa: F811
     _reg2(reg)
     reg.add(SequenceEncode())
     reg.add_loop("serialization.py::SequenceCodec.encode", 0, LoopSpec(_seq_enc_inv, modifies=("$stream.content", "$stream.pos"), lemmas=_seq_enc_lemmas))
+    reg.add(SetEncode())
+    reg.add_loop("serialization.py::SetCodec.encode", 0, LoopSpec(_mk_seq_enc_inv("items"), modifies=("$stream.content", "$stream.pos"),
+                                                                 lemmas=_mk_seq_enc_lemmas("items")))
 
 
 dec_pos = z3.Function("dec_pos", BSeq, Val, Val, Int, Int, Int)   # stream position after the first k elements of a run of T starting at p0
